@@ -389,11 +389,9 @@ func driverMain(id, tier string) int {
 					}
 				}
 			}
-			if confirmed == 1 {
-				incidents = append(incidents, fmt.Sprintf("INTERNAL: violation of %s in %s reproduced in only one of two replays (nondeterminism not owned); history: %s", v.Clause, v.Scenario, strings.Join(v.History, "; ")))
-			}
-			if confirmed == 0 {
-				incidents = append(incidents, fmt.Sprintf("INTERNAL: violation of %s in %s did not reproduce on replay and is not reported; history: %s", v.Clause, v.Scenario, strings.Join(v.History, "; ")))
+			if confirmed < 2 {
+				// the same history must fail the same clause every time before it is believed
+				incidents = append(incidents, fmt.Sprintf("INTERNAL: violation of %s in %s reproduced in %d of two replays (nondeterminism not owned) and is not reported; history: %s", v.Clause, v.Scenario, confirmed, strings.Join(v.History, "; ")))
 				continue
 			}
 		}
